@@ -544,8 +544,8 @@ class CoreEnforcer:
 
     @staticmethod
     def _get_expression(expr, functions=None):
-        expr = expr.replace("&&", "and")
-        expr = expr.replace("||", "or")
+        expr = expr.replace("&&", " and ")
+        expr = expr.replace("||", " or ")
         expr = re.sub(r"!(?!=)", "not ", expr)
 
         return SimpleEval(expr, functions)
